@@ -29,7 +29,7 @@ func runC12(c *Ctx) {
 	w := c.W
 	li := w.lockInfo()
 	perform := w.Func("turn", "Client", "PerformTransaction")
-	handle := w.Func("turn", "Client", "handleSTUNMessage")
+	_ = 0
 	onRtx := w.Func("turn", "Client", "onRtxTimeout")
 	insert := w.Func("client", "TransactionMap", "Insert")
 	find := w.Func("client", "TransactionMap", "Find")
@@ -421,9 +421,16 @@ func runC12(c *Ctx) {
 	}
 
 	// ---- C12.7
-	c.Rule("C12.7", "late and duplicate responses are ignored: in handleSTUNMessage the return on the trMap.Find not-ok edge returns a nil error", 1)
+	ruleLateResponsesIgnored(c, "C12.7")
+}
+
+func ruleLateResponsesIgnored(c *Ctx, rule string) {
+	w := c.W
+	handle := w.Func("turn", "Client", "handleSTUNMessage")
+	find := w.Func("client", "TransactionMap", "Find")
+	c.Rule(rule, "late and duplicate responses are ignored: in handleSTUNMessage the return on the trMap.Find not-ok edge returns a nil error (Client.Listen leaves its read loop on any HandleInbound error)", 1)
 	{
-		c.Anchor("C12.7", "not-found edge")
+		c.Anchor(rule, "not-found edge")
 		n := 0
 		bad := ""
 		for _, r := range returnsOf(handle) {
@@ -439,12 +446,12 @@ func runC12(c *Ctx) {
 			}
 		}
 		if n > 0 && bad == "" {
-			c.OK("C12.7", fname(handle), "not-found edge", w.pos(handle.Pos()), "returns nil: the response is dropped")
+			c.OK(rule, fname(handle), "not-found edge", w.pos(handle.Pos()), "returns nil: the response is dropped")
 		} else {
 			if bad == "" {
 				bad = "no return on the not-found edge"
 			}
-			c.Bad("C12.7", fname(handle), "not-found edge", w.pos(handle.Pos()), bad)
+			c.Bad(rule, fname(handle), "not-found edge", w.pos(handle.Pos()), bad)
 		}
 	}
 }
